@@ -97,10 +97,15 @@ def canonical_dump(scfg, tags=None):
     return "\n".join(entry_to_str(e) for e in export_entries(scfg, top, tags))
 
 
-def mk_scfg(succ, names=None):
-    """Flat SCFG of BasicBlocks from successor index lists."""
+def mk_scfg(succ, names=None, payload="basic"):
+    """Flat SCFG from successor index lists; `payload="bytecode"` makes every block a
+    PythonBytecodeBlock with a distinct [begin, end) range (C05: payload untouched)."""
     names = names or [str(i) for i in range(len(succ))]
     g = {}
     for i, ss in enumerate(succ):
-        g[names[i]] = bb.BasicBlock(name=names[i], _jump_targets=tuple(names[s] for s in ss))
+        if payload == "bytecode":
+            g[names[i]] = bb.PythonBytecodeBlock(name=names[i], _jump_targets=tuple(names[s] for s in ss),
+                                                begin=10 * i, end=10 * i + 8)
+        else:
+            g[names[i]] = bb.BasicBlock(name=names[i], _jump_targets=tuple(names[s] for s in ss))
     return SCFG(g)
